@@ -3,6 +3,8 @@
 //
 //	vh C33 record --num N --trace trace.ndjson
 //
+//	         [--aimed-ms B --aimed-min N --aimed-max N --stats stats.json]   (aimed histories, window.go)
+//
 // Kinds of traces: "base" / "errcb" (NewBaseJobWorker / NewErrCallbackJobWorker driven call by
 // call: NewJob..., Done, Wait or LazyWait, a late NewJob, Close, parent cancellation at a random
 // point), "run" / "runerrcb" (RunJobWorker / RunErrCallbackJobWorker), "batch" (BatchWork).
@@ -13,6 +15,7 @@ package c33
 
 import (
 	"context"
+	"encoding/json"
 	"errors"
 	"fmt"
 	"math/rand"
@@ -366,11 +369,8 @@ func (r *rec) jobSleep(j int, d time.Duration, fail bool, extra ev) func(context
 }
 
 func run(args []string) error {
-	if len(args) >= 1 && args[0] == "aimtest" {
-		return aimTest(h.Flags(args[1:]))
-	}
 	if len(args) < 1 || args[0] != "record" {
-		return fmt.Errorf("usage: C33 record --num N --trace f")
+		return fmt.Errorf("usage: C33 record --num N --trace f [--aimed-ms B --aimed-min N --aimed-max N --stats f]")
 	}
 	fl := h.Flags(args[1:])
 	out, err := h.NewOut(fl["trace"])
@@ -403,6 +403,35 @@ func run(args []string) error {
 		}
 		idx++
 	}
+	// aimed histories (window.go): for a time budget, between a least and a greatest number
+	ams, _ := strconv.Atoi(fl["aimed-ms"])
+	amin, _ := strconv.Atoi(fl["aimed-min"])
+	amax, _ := strconv.Atoi(fl["aimed-max"])
+	w := newWindows(out, rng, &idx)
+	if amax > 0 {
+		if runtime.GOMAXPROCS(0) < 4 {
+			runtime.GOMAXPROCS(4)
+		}
+		if err := w.run(time.Duration(ams)*time.Millisecond, amin, amax); err != nil {
+			return err
+		}
+		// gate-driven histories (gated.go): only if the tree has the gates
+		if err := w.runGated(2); err != nil {
+			return err
+		}
+	}
 	out.Emit(ev{"a": "Eof"})
+	if fl["stats"] != "" {
+		st := map[string]interface{}{"procs": runtime.GOMAXPROCS(0), "counts": w.stats}
+		reps := []int{}
+		for _, n := range w.seen {
+			reps = append(reps, n)
+		}
+		st["shapes"] = len(reps)
+		b, _ := json.Marshal(st)
+		if err := os.WriteFile(fl["stats"], b, 0o644); err != nil {
+			return err
+		}
+	}
 	return nil
 }
